@@ -88,7 +88,16 @@ old(self).inv()
 @ensures
 final(self).same_files(old(self)),
 old(self).healthy() ==> r is Ok,
-r is Ok ==> forall|w: MapW| #[trigger] map_ok(old(self).mb(), w) ==> r->Ok_0 == total(w.cs)
+r is Ok ==> forall|w: MapW| #[trigger] map_ok(old(self).mb(), w) ==> r->Ok_0 == total(w.cs),
+r is Ok ==> forall|w: MapW| #[trigger] map_ok(old(self).mb(), w) ==> is_cardinality(w, r->Ok_0 as nat)
+@exit
+proof {
+    if r__ is Ok {
+        assert forall|w: MapW| #[trigger] map_ok(old(self).mb(), w) implies is_cardinality(w, r__->Ok_0 as nat) by {
+            lemma_len_is_cardinality(old(self).mb(), w);
+        }
+    }
+}
 @end
 
 @fn src/filedb/inner/dbxxx.rs | impl<KT: DbMapKeyType> FileDbXxxInner<KT> | find_in_hash_buckets_kt
